@@ -126,6 +126,22 @@ Theorem C18_reader_has_timer : forall (L : Type) (cls : L -> lclass) cf, cP3 cf 
 Proof. exact reader_has_timer. Qed.
 Print Assumptions C18_reader_has_timer.
 
+(* the full no-hang statement for the reader: un-paused, it returns within one sleep plus three timeouts
+   (the running timer, a resume's replacement timer, one retried read), whatever happened before.
+   PARTIAL: proved are C18_reader_has_timer (every blocked read has a running timer <= Timeout),
+   C18_timer_in_pause_no_error and C18_gate_resumes; the tick-counting bound below is stated only. *)
+Definition C18_long_pause_no_hang_full : Prop :=
+  forall (L : Type) (cls : L -> lclass) cf, cP3 cf = true -> (0 < cT cf)%nat ->
+  forall s, reachable L cls cf s -> ph s <> PIdle -> pausing (core s) = false ->
+  exists k, (k <= S (cSL cf) + 3 * cT cf)%nat /\
+    exists o, In (Some o) (snd (rrun L cls cf s (repeat ETick k))).
+
+Theorem C18_long_pause_no_hang_partial : forall (L : Type) (cls : L -> lclass) cf, cP3 cf = true ->
+  forall es s os snap, rrun L cls cf (rinit L) es = (s, os) -> ph s = PRead snap ->
+  has_timer cf (tmo (core s)) /\ stopped (core s) = false.
+Proof. intros L cls cf H es s os snap Hr Hp. destruct (reader_has_timer L cls cf H es s os snap Hr Hp) as (A & B & _). auto. Qed.
+Print Assumptions C18_long_pause_no_hang_partial.
+
 (* THE COMPOSITION (one direction of a transfer: our wire sender with its gate and the ack window W, our
    ack reader, the peer's data reader with timeout T and its acker; line latency 0).  For EVERY schedule
    of goroutine moves, ticks, pause requests and resumes -- a pause may begin before any move -- in which
